@@ -71,6 +71,40 @@ def _nonzero(*names):
     return constrain
 
 
+def _logtanh_cut(h, ctx, m, params):
+    """constructor cut for LogTanh: the constants alpha, beta, tanh(cut_point) computed by the real __init__ (nested transcendental terms) are
+    shown to satisfy  alpha > 0, beta > 0, alpha*log(beta*cut) == tanh(cut) in (0, 1)  and are then replaced by fresh symbols carrying
+    exactly those facts."""
+    from tsv.core import TFloat, lift
+    from tsv import terms as T
+    c = rv(m.cut_point)
+    a, b, i = lift(m.alpha), lift(m.beta), lift(m.inv_cut_point)
+    loc = ("contract", "LogTanh.__init__", 0)
+    ctx.oblige("cut-lemma", z3.And(a > 0, b > 0, i > 0, i < 1), label="logtanh.constants-positive", loc=loc)
+    from tsv.ops import s_log
+    bc = T.mul(b, c)
+    lbc = s_log(bc)
+    if not z3.eq(bc, b):        # log of a product of positive numbers (law of the real logarithm)
+        ctx.axiom([lbc], z3.Implies(z3.And(b > 0, c > 0), lbc == s_log(b) + s_log(c)))
+    ctx.oblige("cut-lemma", T.mul(a, lbc) == i, label="logtanh.value-match-at-cut", loc=loc)
+    A, B, I = z3.Real("LT_alpha"), z3.Real("LT_beta"), z3.Real("LT_tanh_cut")
+    from tsv.ops import s_tanh, s_exp
+    ctx.notes["exp_monotone"] = True
+    LBC = s_log(T.mul(B, c))
+    ctx.assume(z3.And(A > 0, B > 0, I > 0, I < 1, A * LBC == I, I == s_tanh(c)))
+    ctx.assume(s_exp(T.div(I, A)) == T.mul(B, c))        # the same fact in exponential form (exp(log u) = u)
+    ctx.oblige("cut-lemma", s_tanh(T.neg(c)) == T.neg(s_tanh(c)), label="logtanh.tanh-odd", loc=loc)
+    ctx.assume(s_tanh(T.neg(c)) == T.neg(I))
+    e2c = s_exp(T.mul(rv(2), c))
+    ctx.assume(s_log(e2c) == 2 * c)                        # registered so that logs can be compared against 2*cut (monotonicity instances)
+    ctx.assume(s_log(s_exp(T.mul(rv(-2), c))) == -2 * c)
+    # atanh(+-I) = +-cut in the form the inverse computes it: (1 + I)/(1 - I) = e^{2 cut}
+    em2c = s_exp(T.mul(rv(-2), c))
+    ctx.oblige("cut-lemma", z3.And((1 + I) / (1 - I) == e2c, (1 - I) / (1 + I) == em2c), label="logtanh.atanh-of-cut", loc=loc)
+    ctx.assume(z3.And((1 + I) / (1 - I) == e2c, (1 - I) / (1 + I) == em2c, (1 + I) == e2c * (1 - I), (1 - I) == em2c * (1 + I)))
+    m.alpha, m.beta, m.inv_cut_point = TFloat(float(m.alpha), A), TFloat(float(m.beta), B), TFloat(float(m.inv_cut_point), I)
+
+
 def _bn_constrain(h, ctx, m, params):
     for t in P(params["running_var"]).reshape(-1):
         ctx.assume(t >= 0)
@@ -81,7 +115,10 @@ SPECS = [
     mk("Exp", lambda: NL.Exp(), NL.Exp, lo=0.0),
     mk("Exp4d", lambda: NL.Exp(), NL.Exp, shape=(2, 1, 2, 1), lo=0.0),
     mk("Tanh", lambda: NL.Tanh(), NL.Tanh, lo=-1.0, hi=1.0),
-    mk("LogTanh", lambda: NL.LogTanh(cut_point=1), NL.LogTanh, shape=(1, 2)),
+    mk("LogTanh", lambda: NL.LogTanh(cut_point=1), NL.LogTanh, shape=(1, 2), constrain=_logtanh_cut),
+    mk("LogTanh2", lambda: NL.LogTanh(cut_point=2), NL.LogTanh, shape=(1, 2), constrain=_logtanh_cut),
+    mk("LogTanh_1x1", lambda: NL.LogTanh(cut_point=1), NL.LogTanh, shape=(1, 1), constrain=_logtanh_cut),
+    mk("LogTanh2_1x1", lambda: NL.LogTanh(cut_point=2), NL.LogTanh, shape=(1, 1), constrain=_logtanh_cut),
     mk("LeakyReLU", lambda: NL.LeakyReLU(), NL.LeakyReLU),
     mk("LeakyReLU0.5", lambda: NL.LeakyReLU(negative_slope=0.5), NL.LeakyReLU, shape=(1, 2, 1, 1)),
     mk("Sigmoid", lambda: NL.Sigmoid(), NL.Sigmoid, shape=(1, 2), lo=0.0, hi=1.0, open_dom=False, params={"temperature": ((1,), True)},
@@ -108,5 +145,7 @@ SPECS = [
 SPECS = {s.name: s for s in SPECS}
 for _n in ("Sigmoid", "SigmoidLearnT"):
     SPECS[_n].concrete_in = ("if", "fi")
-FUNCTIONAL = [n for n in SPECS if n != "LogTanh"]     # LogTanh: cut-point constants are nested transcendental constants; not under functional contract
+FUNCTIONAL = [n for n in SPECS if not n.endswith("_1x1")]        # LogTanh: the constants of __init__ enter through a constructor cut (_logtanh_cut)
+# the composition harnesses of LogTanh run on a single element (three branches per direction; the elements are independent, see C01.diagonal)
+ROUNDTRIP = [n for n in FUNCTIONAL if not n.startswith("LogTanh")] + ["LogTanh_1x1", "LogTanh2_1x1"]
 DOMAIN_RESTRICTED = ["Exp", "Exp4d", "Tanh", "Sigmoid", "SigmoidLearnT", "CauchyCDF"]
